@@ -39,6 +39,8 @@ def gen_case(rng):
     gs = []
     for _ in range(n):
         q = rng.choice([-1, 1]) if kind > 0.15 else (-1 if kind < 0.07 else 1)
+        if rng.random() < 0.2:
+            q = q * rng.choice([2, 3, 0.5])        # ions / parameter files give formal charges of other magnitudes
         mp = rng.choice([3.8, 4.5, 6.5, 9.0, 10.0, 10.5, 12.5, 8.0, 3.2])
         pk = round(mp + rng.uniform(-4, 4), rng.choice([1, 2, 6]))
         gs.append((q, pk, mp, rng.random() > 0.12))
@@ -192,7 +194,7 @@ def run(chk: common.Check):
 
     # ---------------------------------------------------------- per-group curve on the real method (search)
     for _ in range(3000 if chk.thorough else 600):
-        q = float(rng.choice([-1, 1]))
+        q = float(rng.choice([-1, 1, -2, 2, 0.5, -0.5, 3]))
         pk = rng.uniform(-2, 16)
         g = CE.fake_group(q, pk, rng.uniform(0, 14))
         phs = sorted(rng.uniform(-1, 15) for _ in range(4))
